@@ -59,6 +59,11 @@ def returned_by_match(func, match_edges, ret_consts):
     return results
 
 
+def is_ptr_arg(a):
+    ct = (strip(a).get('ct') or a.get('ct') or '') if strip(a) is not None else ''
+    return ct.rstrip().endswith('*')
+
+
 def _countdown_walk(F, cnt, conv):
     """`for (p = list; left > 0; p++, left--) ... convert(*p)`: the count is used up one per item while a cursor
     moves one item on, both in the same step, and the loop runs while items are left"""
@@ -171,6 +176,18 @@ def run(ctx):
         chk.ob('U2', 'returns-on-match[%s]' % fname, m == {on_match}, F.where(), fname,
                'on paths where an item equals the uid %s returns %s, expected only %s' % (fname, sorted(map(str, m)), on_match),
                how='every path through the "== uid" edge returns %s' % on_match)
+        if o != {otherwise} or m != {on_match}:
+            # another way of accepting an item (a range, a name looked up): whether it can be taken for a well-formed
+            # decimal item is a question about the helper's string algorithm, which no rule here decides
+            for cc in F.calls():
+                t_ = prog.func(cc.get('callee'), F.tu) if cc.get('callee') else None
+                if t_ is None or cc.get('callee') in CONVERT or t_.name.startswith('snoopy_util_parser_csv'):
+                    continue
+                takes_item = any(a is not None and any(z.k == 'ArraySubscriptExpr' or (z.k == 'UnaryOperator' and z.get('op') == '*')
+                                                        for z in a.walk()) and is_ptr_arg(a) for a in cc.ch[1:])
+                if takes_item and common.blocks_testing(F, common.is_result_of(F, cc)):
+                    raise AnalysisBroken('%s also judges a list item through %s: whether that can accept or reject a '
+                                         'well-formed decimal item is not decided by U2' % (fname, render(cc)[:60]))
         chk.ob('U2', 'returns-without-match[%s]' % fname, o == {otherwise}, F.where(), fname,
                'on paths where no item equals the uid %s returns %s, expected only %s' % (fname, sorted(map(str, o)), otherwise),
                how='every path that never takes the "== uid" edge returns %s' % otherwise)
